@@ -37,10 +37,15 @@ let rec c11_inst = function
   | [] -> []
   | l -> let pat = str_of_ascii "{id}" in
     if Rt.has_prefix_l pat l then str_of_ascii "7" @ c11_inst (Rt.drop 4 l) else (match l with x :: r -> x :: c11_inst r | [] -> [])
+(* flavours: "dyn" (above) and "cache" (the router caches dynamic matches, the canonical spelling is requested first and every lookup
+   is repeated): by C07_cache_transparent / C11_lookup_by_normal_form the cache changes no answer, so model and spec ignore it *)
 let c11_case = function
-  | L [A "c11"; st; enc; L gs; reg; dec; esc; A "dyn"] ->
-    c11_dyn := true; (bool st, bool enc, List.map str gs, str reg @ c11_sfx_reg, str dec @ c11_sfx_req, str esc @ c11_sfx_req)
-  | L [A "c11"; st; enc; L gs; reg; dec; esc] -> c11_dyn := false; (bool st, bool enc, List.map str gs, str reg, str dec, str esc)
+  | L (A "c11" :: st :: enc :: L gs :: reg :: dec :: esc :: fl) ->
+    List.iter (function A "dyn" | A "cache" | A "tail" -> () | x -> failwith ("c11: bad flavour " ^ to_string x)) fl;
+    if List.mem (A "dyn") fl then begin
+      let sfx = if List.mem (A "tail") fl then c11_sfx_req @ str_of_ascii "/" else c11_sfx_req in
+      c11_dyn := true; (bool st, bool enc, List.map str gs, str reg @ c11_sfx_reg, str dec @ sfx, str esc @ sfx) end
+    else begin c11_dyn := false; (bool st, bool enc, List.map str gs, str reg, str dec, str esc) end
   | x -> failwith ("c11: bad case " ^ to_string x)
 let c11_model c =
   let (st, enc, gs, reg, dec, esc) = c11_case c in
